@@ -413,6 +413,10 @@ def run_check(prop: str, tier: str, base: int, workers: int, budget_s: Optional[
     mod = load_prop(prop)
     known = load_known()
     plan = dict(mod.PLAN[tier])  # family -> number of random seeds
+    if tier == 'thorough':  # the fixed block of the thorough tier is at least three quick blocks
+        plan = {f: max(n, 3 * mod.PLAN['quick'].get(f, 0)) for f, n in plan.items()}
+        for f, n in mod.PLAN['quick'].items():
+            plan.setdefault(f, 3 * n)
     if os.environ.get('VERIF_FAMILIES'):
         only = set(os.environ['VERIF_FAMILIES'].split(','))
         plan = {f: n for f, n in plan.items() if f in only}
